@@ -460,7 +460,11 @@ def cast(a, w, signed, kind="int"):
         v = a.sval() if a.signed else a.val
         return Int(w, signed, val=v, kind=kind)
     bits = list(a.getbits())
-    if w <= a.w:
+    if w < a.w:
+        # truncation is not linear: a derived atom (so that a comparison on the truncated value is recognisably not the original one)
+        af = None if a.aff is None else aff_pack({"(trunc%d %s)" % (w, aff_str(a.aff)): 1}, 0)
+        return Int(w, signed, bits=bits[:w], kind=kind, aff=af)
+    if w == a.w:
         return Int(w, signed, bits=bits[:w], kind=kind, aff=a.aff)
     fill = bits[-1] if a.signed else ZERO
     return Int(w, signed, bits=bits + [fill] * (w - a.w), kind=kind, aff=a.aff)
